@@ -104,6 +104,26 @@ def deep_iterstep(ctx, cf):
 
 DEEP_SEARCH = {"iterstep": deep_iterstep}
 
+# ------------------------------------------------------------------ C07: race-detector run (thorough tier)
+def race_pipeline(ctx):
+    """thorough tier: the pipeline component once more, built with -race (supporting evidence only)"""
+    if ctx.tier != "thorough":
+        return
+    import check
+    exe = os.path.join(check.HARN, "bin", "sxdiff-race")
+    rc, out, _ = check.sh(["go", "build", "-race", "-tags", "verif", "-o", exe, "./cmd/sxdiff"], cwd=check.HARN, env=check.GOENV)
+    if rc != 0:
+        ctx.notes.append("race build not available: " + out[-300:])
+        return
+    rc, out, dt = check.sh([exe, "pipeline", "-seed", str(ctx.seed), "-tier", "quick", "-cases", os.path.join(ctx.work, "race.cases"),
+                            "-stats", os.path.join(ctx.work, "race.stats.json")], cwd=ctx.work,
+                           env=dict(check.GOENV, GORACE="halt_on_error=0"), timeout=1200)
+    ctx.notes.append("race-detector run of sxdiff pipeline: rc=%d, %.1fs, DATA RACE reports: %d" % (rc, dt, out.count("DATA RACE")))
+    if "DATA RACE" in out or rc != 0:
+        ctx.violation("correspondence", "race detector reports a data race (or the race build crashed) in the packet pipeline run",
+                      {"component": "pipeline-race", "output": out[-3000:]}, False)
+
+
 NOT_CLAIMED = {}
 
 PROPS = {
@@ -161,6 +181,20 @@ PROPS = {
                         "the harness's Scanner ignores ctx (worst case for the return time)"],
         "level_text": "Lean theorems over Model/Engine.lean with Ctrl-C enabled in every state, by induction over Reachable, for every W, request list, producer script and schedule, i.e. every cancellation point: C12_no_panic (no send on a closed channel, no double close; errc closed => all W workers returned; results closed <=> copier returned), C12_progress (derived ctx cancelled and not returned => some return-path process can step), C12_rank_step + C12_bounded_return (ranking function: every return-path step strictly decreases it, no other step increases it after the cancel; along every execution at most rank steps), C12_rank_bound (rank <= 4*capRes + 2*capErr + 7*W + 5*|pending| + 12 = 4912 + 5*|pending| at the source's constants), C12_streams_end (returned => logger and drain returned, errc closed and empty, every sent error logged once), C12_whole_records (output grows only by one whole record per Write; only Put values are printed). Side conditions decided on regenerated descriptors. Tied to the code by cancelling the REAL engine + startScanEngine at the k-th Scan / Put / error / write for every k of short runs and with full buffers, in a child process (panic => recorded with goroutine dump), checking return time, complete lines, at-most-once counts.",
         "level_note": "Partial: bounded STEPS under fairness, not bounded time (C12_full stated, not claimed); generic-engine side; packet side pending import. Trusted: Lean kernel; channel/select semantics of the transition system; sxfacts for descriptors.",
+    "C07": {
+        "modules": ["SxVerif.Props.C07"],
+        "components": ["pipeline"],
+        "extra": [race_pipeline],
+        "trusted_base": [
+            "modelled, not verified: Go channel / select / sync.WaitGroup / sync.Pool semantics at the granularity of one channel operation or one call per step (Model/Pipe.lean); gopacket SerializeBuffer.Clear never fails; the request channel is modelled unbounded (superset of every capacity incl. rendezvous)",
+            "stage descriptors regenerated from generator.go / engine.go / sender.go / memory.go by sxfacts (Generated/StagesPacket.lean): per goroutine the ordered channel operations with their ctx-guards, calls, closes, WaitGroup shape, capacities, wiring facts; the model's configuration (guards, capacities, order of WritePacketData/FreeSerializeBuffer, close order, closers wait) is READ from them and the side conditions are decided on them",
+            "the hand-written process bodies of Model/Pipe.lean are tied to the code by the side condition ShapeOk (op sequence of every goroutine) and by sxdiff pipeline: the real pipeline under load (multisets) and steered one-at-a-time traces replayed through the model's step function",
+        ],
+        "assumptions": ["the error stream has a consumer (startScanEngine drains it)",
+                        "the run is not cancelled (cancellation is C12; the no-panic theorem does cover cancel)",
+                        "PacketFiller.Fill is a function of the request; a failed WritePacketData is reported once"],
+        "level_text": "Lean theorems over the small-step interleaving system Pipe.step (N workers + N multiplexers + closer + sender + 2 error multiplexers + closer + environment, bounded FIFO channels with closed flags, buffer pool with identities, cancel step) instantiated from the regenerated stage descriptors: side_conditions (SingleCloser, CloseAfterSenders, FreeAfterWrite, GetBeforeFill, CapsPositive, GuardedOnReturnPath, ShapeOk, by decide), C07_conserve_partial (token conservation: written + error-consumed + in flight = consumed requests + failed writes + receiver errors, as an invariant of every reachable state of every uncancelled schedule, any N, any request list, any writer failure pattern), C07_final_partial (Terminated => frames written + errors delivered = one frame per error-free request + one error per failed request/build/write/receiver error, as multisets), C07_done_partial (done closed => every error-free request has already been written), C07_no_panic (no send on closed / double close under every schedule incl. cancel), C07_errc_closes_after_cancel. Tied to the code by the real NewPacketMultiGenerator/PacketEngine/NewSender pipeline with a recording writer (frames multiset, errors multiset, done-after-last-write, bytes stable while the writer holds them), worker counts 1..64, >100 errors, slow and failing writers, and steered traces accepted by the model's step function.",
+        "level_note": "partial: frames are identified in the theorems by the request a written packet was made for; byte exactness C07_bytes_full (buffer exclusivity invariant BufInv) and C07_progress_full (no deadlock given an error consumer) are stated as defs, not proved; both are covered dynamically by the Spec verdict on every harness case (byte-exact multisets, bytes stable during the write, termination within the timeout). Trusted: Lean kernel; Go runtime semantics as modelled; sxfacts; the race-detector run (thorough) is supporting evidence only.",
     },
     "C20": {
         "modules": ["SxVerif.Props.C20"],
